@@ -193,3 +193,181 @@ def _comment_ob(mark):
 
 for _m in (None, "!", ">", "*", "<", "!>"):
     _comment_ob(_m)
+
+
+# ---------------------------------------------------------------------------------------
+# O5: one logical line out of FortranReader.__next__
+# ---------------------------------------------------------------------------------------
+def replay_reader(w):
+    """Run the real FortranReader on the witness lines (doc marks disabled) and compare the
+    canonical statements with the reference joiner."""
+    import os
+    import tempfile
+    import ford.reader as rd
+
+    want = O.py_free_statements(w["lines"])
+    if want is None:
+        return False, "witness outside the scenario of the reference joiner"
+    fd, p = tempfile.mkstemp(suffix=".f90")
+    with os.fdopen(fd, "w") as f:
+        f.write("".join(l + "\n" for l in w["lines"]))
+    try:
+        try:
+            got = [O.py_canon(x) for x in rd.FortranReader(p, docmark="") if x != ""]
+        except Exception as e:  # noqa
+            got = ["EXC " + repr(e)]
+    finally:
+        os.remove(p)
+    return got != want, {"lines": w["lines"], "ford": got, "lexical_rule": want}
+
+
+def _run_reader_harness(ctx, h, max_paths, names):
+    import ford.reader as rd
+    import ford.utils as fu
+    from fv import readerh
+
+    ctx.encode_fn(rd.FortranReader.__next__)
+    ctx.encode_fn(rd._match_docmark)
+    ctx.encode_fn(rd._contains_unterminated_string)
+    ctx.encode_fn(fu.quote_split)
+    ctx.encode_re("COM_RE", rd.FortranReader.COM_RE)
+    ctx.stubs.append("self.reader replaced by an iterator over the symbolic physical lines (file I/O stubbed)")
+    ctx.stubs.append("_contains_unterminated_string and quote_split run as merged SXM summaries of their current source")
+    with patch.patched(rd, fu, extra=readerh.reader_patches()):
+        E = sym.Engine(ctx, max_paths=max_paths)
+        found = E.explore(h)
+        for label, m, pc in found[:3]:
+            ctx.report(label, {"lines": [E.model_value(m, x) for x in h.lines]}, replay_reader)
+        for nm in names:
+            if not E.reached.get(nm):
+                ctx.inconclusive.append(f"vacuity: path class '{nm}' not reached")
+            else:
+                ctx.twins += 1
+    return E
+
+
+@obligation("C02", "O5.reader.single-line", engine="SX+RXA+SXM", timeout=1800)
+def reader_single(ctx):
+    """next(FortranReader) on one physical line: comment removed at the first `!` outside literals,
+    pieces cut at `;` outside literals, stripped, empties dropped, order kept"""
+    from fv import readerh
+
+    N = 7 if ctx.thorough else 5
+    ctx.bounds.update({"lines": 1, "N": N, "alphabet": LEX, "docmarks": "disabled"})
+
+    def h(E):
+        L1 = E.string("L1", N, alphabet=LEX)
+        h.lines = [L1]
+        r = readerh.mk_reader([L1 + "\n"], docmark="")
+        code, fb, st = readerh.strip_comment(L1)
+        t = code.strip()
+        # scenario: the line is not continued and does not start with `&`
+        E.assume(sym.mk_bool(z3.Or(t.len == 0, z3.And(readerh.last_char(t) != ord("&"), t.at(iv(0)) != ord("&")))))
+        try:
+            first = next(r)
+        except StopIteration:
+            E.reachable("nothing")
+            # nothing returned: every piece must be blank
+            E.require(sym.mk_bool(z3.And(*[z3.Or(iv(i) >= code.len, z3.Or(code.at(iv(i)) == 32, code.at(iv(i)) == 9,
+                      z3.And(code.at(iv(i)) == 59, st[i] == O.OUT))) for i in range(N)])), "statement lost")
+            return
+        # an empty piece (e.g. the text before a leading `;`) is not a statement
+        got = [g_ for g_ in readerh.all_outputs(r, first) if not (g_ == "")]
+        E.reachable("statements")
+        if len(got) > 1:
+            E.reachable("several")
+        # specification pieces
+        cut = [z3.And(iv(i) < code.len, st[i] == O.OUT, L1.chars[i] == 59) for i in range(N)]
+        items, left = [], iv(0)
+        for i in range(N + 1):
+            hi = iv(i) if i < N else code.len
+            g = cut[i] if i < N else z3.BoolVal(True)
+            hi = z3.If(hi > code.len, code.len, hi)
+            piece = code.slice_t(left, hi).strip()
+            items.append((z3.And(g, piece.len > 0), (left, hi)))
+            if i < N:
+                left = z3.If(cut[i], iv(i + 1), left)
+        A, B, cnt = sxm.compact_pairs(items, N + 1)
+        E.require(sym.mk_bool(cnt == len(got)), "number of statements differs from the lexical rule")
+        for j, g_ in enumerate(got):
+            if isinstance(g_, str) and sym.OPAQUE in g_:
+                raise Inconclusive("opaque formatted text reached a result")
+            want = code.slice_t(z3.simplify(A[j]), z3.simplify(B[j])).strip()
+            E.require(sym.mk_bool(SymStr.lift(g_).eq_t(want)), f"statement {j} differs from the lexical rule")
+
+    _run_reader_harness(ctx, h, 3000, ["nothing", "statements", "several"])
+    ctx.sample({"scenario": "one physical line", "N": N})
+
+
+def z3_sep(lead):
+    """one blank between the parts unless the continuation line starts with `&`"""
+    return SymStr([sym.cv(" ")], z3.If(lead, iv(0), iv(1)))
+
+
+def _continuation_ob(name, middle, N1q, N2q, N1t, N2t):
+    @obligation("C02", "O5.reader.continuation." + name, engine="SX+RXA+SXM", timeout=3000)
+    def ob(ctx):
+        from fv import readerh
+
+        N1, N2 = (N1t, N2t) if ctx.thorough else (N1q, N2q)
+        ctx.bounds.update({"lines": 2 + len(middle), "N1": N1, "N2": N2, "alphabet": LEX, "middle_lines": middle,
+                           "docmarks": "disabled"})
+        ctx.assumptions.append("a `!` on a line that starts inside a continued literal, and literal continuation "
+                               "without a leading `&`, are outside the scenario")
+
+        def h(E):
+            L1 = E.string("L1", N1, alphabet=LEX)
+            L2 = E.string("L2", N2, alphabet=LEX)
+            mids = list(middle)
+            h.lines = [L1] + mids + [L2]
+            r = readerh.mk_reader([L1 + "\n"] + [m + "\n" for m in mids] + [L2 + "\n"], docmark="")
+            code1, fb1, st1 = readerh.strip_comment(L1)
+            t1 = code1.strip()
+            E.assume(sym.mk_bool(z3.And(t1.len > 0, readerh.last_char(t1) == ord("&"), t1.at(iv(0)) != ord("&"))))
+            body1 = t1.slice_t(iv(0), t1.len - 1)
+            stb = O.lex_states(body1)
+            s1 = O.state_at_len(body1, stb)
+            inlit = s1 != O.OUT
+            if mids:
+                # blank/comment lines can only stand between the parts of a statement outside a literal
+                E.assume(sym.mk_bool(z3.Not(inlit)))
+            code2, fb2, st2 = readerh.strip_comment(L2, s1)
+            # in a literal: no `!` at all on the second line (FORD does not look for comments there)
+            E.assume(sym.mk_bool(z3.Or(z3.Not(inlit), z3.And(*[z3.Or(iv(i) >= L2.len, L2.chars[i] != 33) for i in range(N2)]))))
+            t2 = code2.strip()
+            lead = t2.at(iv(0)) == ord("&")
+            E.assume(sym.mk_bool(z3.And(t2.len > 0, readerh.last_char(t2) != ord("&"), z3.Or(z3.Not(inlit), lead))))
+            rest2 = t2.slice_t(z3.If(lead, iv(1), iv(0)), t2.len)
+            E.assume(sym.mk_bool(z3.Or(z3.Not(lead), rest2.strip().len > 0)))
+            joined = body1 + z3_sep(lead) + rest2
+            stj = O.lex_states(joined)
+            jc = joined.chars
+            E.assume(sym.mk_bool(z3.And(*[z3.Or(iv(i) >= joined.len, stj[i] != O.OUT, jc[i] != 59) for i in range(joined.cap)])))
+            try:
+                first = next(r)
+            except StopIteration:
+                E.reachable("nothing")
+                E.require(False, "continued statement lost")
+                return
+            except ValueError:
+                E.reachable("error")
+                E.require(False, "reader rejects a valid continuation")
+                return
+            got = readerh.all_outputs(r, first)
+            E.reachable("joined")
+            if sym.bterm(inlit) is not None and E.decide(inlit):
+                E.reachable("literal-continued")
+            E.require(sym.mk_bool(z3.BoolVal(len(got) == 1)), "more than one statement from a continuation without `;`")
+            a, b = readerh.canon(SymStr.lift(got[0])), readerh.canon(joined)
+            E.require(sym.mk_bool(a.eq_t(b)), "joined statement differs from the lexical rule")
+
+        _run_reader_harness(ctx, h, 6000, ["joined"] + ([] if middle else ["literal-continued"]))
+        ctx.sample({"scenario": "two physical lines joined by &", "middle": middle, "N1": N1, "N2": N2})
+
+    ob.__doc__ = ("two physical lines joined by `&` (leading `&` optional outside literals), "
+                  f"with lines {middle!r} in between: the logical line equals the standard's join modulo blanks outside literals")
+
+
+_continuation_ob("plain", [], 4, 4, 5, 5)
+_continuation_ob("blank-between", ["  "], 4, 3, 5, 4)
+_continuation_ob("comment-between", [" ! c"], 4, 3, 5, 4)
